@@ -54,7 +54,7 @@ def pick(tier, seed):
             ((1, 2), 2, "$I", "$"), ((2, 1), 0, "$", "I$"), ((4,), 2, "II", ""), ((3,), 1, "", "II")]
     # exception polarity (is_context = false) for every shape whose index is a multiple of 3: make sure the two-element
     # before/after parts are among them
-    n_extra = 2 if tier == "quick" else 60
+    n_extra = 10 if tier == "quick" else 120
     # stratify: every (before-pattern, after-pattern) class gets a chance before repeats
     rnd.shuffle(shapes)
     seen, extra = set(), []
@@ -125,6 +125,7 @@ def c03(tier, seed, dst, facts):
     unwind = n_f + 2
     hs = []
     HDR = "#[kani::proof]\n" + G.STUB_RS + "\n#[kani::unwind(%d)]" % unwind
+    HDR8 = "#[kani::proof]\n" + G.STUB_RS + "\n#[kani::unwind(8)]"
     mat_feats = [11, 15, 2, 20, 6, 16, 24]
     for idx, (comp, t, bp, ap) in enumerate(pick(tier, seed)):
         n = sum(comp)
@@ -213,6 +214,61 @@ fn @name@() {
     # (VecDeque::make_contiguous + slice::reverse) still ran past 15 minutes. Word::reverse is therefore NOT encoded; the
     # harnesses build the reversed word directly and assert SegPos::reversed against it.)
     lemma_shapes = []
+    # ---------------------------------------------------------------- sets in environments: `{c, $}` / `{$, c}` / `{c, d}`
+    # context_match_set takes the set as a slice (R5: stack array). Alternatives are tried in the order written, the first
+    # one that holds decides how far the cursor moves (a boundary consumes nothing), a failed set restores the cursor.
+    set_shapes = [("IS", True), ("SI", True), ("II", True), ("IS", False)] if tier == "thorough" else [("IS", True)] + [[("SI", True)], [("II", True)]][seed % 2]
+    for (kinds, fw) in set_shapes:
+        nm = "c03_set_%s_%s" % (kinds.replace("$", "S"), "fw" if fw else "bw")
+        alts = []
+        for j, k in enumerate(kinds):
+            alts.append("Item::new(ParseElement::Ipa(c%d, None), P)" % j if k == "I" else "Item::new(ParseElement::SyllBound, P)")
+        # reference: first alternative (in written order) that holds at flat position q of word [x0].[x1 x2]; returns consumed count
+        def ref(q, at_start):
+            out = ["let mut hit: Option<usize> = None;"]
+            for j, k in enumerate(kinds):
+                if k == "I":
+                    out.append("if hit.is_none() && xs[%d] == c%d { hit = Some(1); }" % (q, j))
+                else:
+                    out.append("if hit.is_none() && %s { hit = Some(0); }" % ("true" if at_start else "false"))
+            return " ".join(out)
+        hs.append(G.H(nm, "environment-set", "subrule", G.T(HDR8 + """
+fn @name@() {
+    // word [x0].[x1 x2] (handed to the matcher @dirdesc@); set {@kinds@} met at the start of the second syllable and in its middle
+    let x0 = any_seg(); let x1 = any_seg(); let x2 = any_seg();
+    kani::assume(x1 != x2);
+    let c0 = any_seg(); let c1 = any_seg();
+    let mut w = empty_word();
+    w.syllables.push(syll_of(&[x0], any_stress(), kani::any()));
+    w.syllables.push(syll_of(&[x1, x2], any_stress(), kani::any()));
+    let xs = [x0, x1, x2];
+    let sub = mk_sub(RuleType::Substitution);
+    let set = [@alts@];
+    {
+        let mut pos = SegPos::new(1, 0);
+        @ref_start@
+        let r = sub.context_match_set(&set, &w, &mut pos, @fw@);
+        match r { Ok(v) => assert!(v == hit.is_some(), "role=set-matches-iff-some-alternative-does"), Err(_) => assert!(false, "role=unexpected-error") }
+        match hit { Some(1) => assert!(pos == SegPos::new(1, 1), "role=first-listed-alternative-decides-cursor"), _ => assert!(pos == SegPos::new(1, 0), "role=boundary-or-failed-set-leaves-cursor") }
+        @cov_start@
+    }
+    {
+        let mut pos = SegPos::new(1, 1);
+        @ref_mid@
+        let r = sub.context_match_set(&set, &w, &mut pos, @fw@);
+        match r { Ok(v) => assert!(v == hit.is_some(), "role=set-matches-iff-some-alternative-does"), Err(_) => assert!(false, "role=unexpected-error") }
+        match hit { Some(1) => assert!(pos == SegPos::new(2, 0), "role=first-listed-alternative-decides-cursor"), _ => assert!(pos == SegPos::new(1, 1), "role=boundary-or-failed-set-leaves-cursor") }
+        kani::cover!(hit.is_none());
+    }
+    std::mem::forget(sub); std::mem::forget(w); std::mem::forget(set);
+}
+""", name=nm, kinds=", ".join("c%d" % j if k == "I" else "$" for j, k in enumerate(kinds)), alts=", ".join(alts), fw="true" if fw else "false",
+            dirdesc="as it is" if fw else "as the REVERSED word of [x2 x1].[x0]: same structure, the matcher only differs in `forwards`",
+            ref_start=ref(1, True), ref_mid=ref(2, False),
+            cov_start=("kani::cover!(hit == Some(1)); " if kinds[0] == "I" else "") + ("kani::cover!(hit == Some(0));" if "S" in kinds else "kani::cover!(hit.is_none());")), shared=[G.SUBRULE_SHARED, SHARED],
+            functions=["SubRule::context_match_set", "SubRule::context_match_ipa", "SegPos::increment", "HashMap::clone (empty binding tables)"],
+            symbolic="3 word bundles + 2 set bundles, stress, tone", shape="set {%s} in word [1, 2], %s" % (kinds, "forwards" if fw else "backwards"), unwind=8, stubs=STUBS, weight=2))
+
     hs.append(G.H("c03_twin_reach", "vacuity-twin", "subrule", G.T(HDR + """
 fn c03_twin_reach() {
     let x0 = any_seg(); let x1 = any_seg(); let c = any_seg();
@@ -231,13 +287,13 @@ fn c03_twin_reach() {
     total = len(all_shapes())
     return {
         "harnesses": hs, "cap_s": 900 if tier == "quick" else 1800, "jobs": 8,
-        "bounds": ["words of 3 and 4 segments in every syllabification, every target position, environments with up to 2 elements per side from {IPA segment, #, $} (# only at the periphery): %d shapes in all, %d decided this run (14 fixed regression shapes + seeded stratified draw; VERIF_SEED=%d)" % (total, len(hs) - len(lemma_shapes) - 1, seed),
+        "bounds": ["words of 3 and 4 segments in every syllabification, every target position, environments with up to 2 elements per side from {IPA segment, #, $} (# only at the periphery): %d shapes in all, %d decided this run (14 fixed regression shapes + seeded stratified draw; VERIF_SEED=%d)" % (total, sum(1 for h in hs if h["family"] == "environment-selection"), seed),
                    "environment states are passed as stack arrays (R5); unwind %d" % unwind, "every third shape runs the exception polarity (is_context=false)"],
         "outside": ["the six-line combinator SubRule::match_contexts_and_exceptions itself (context AND NOT exception over environment sets): it deep-clones Vec<Item> and a reversed Word, whose recursive clone/drop glue does not finish; the harness recombines the two halves the same way",
                     "the left-to-right scan ('as already rewritten'), input matching and the rewrite itself (SubRule::apply -> input_match_at -> substitution): whole-rule application does not finish under CBMC",
                     "one-slot matrices as environment elements: every such shape ran past 40 minutes (context_match_matrix -> match_modifiers inside the environment loop); match_modifiers is decided separately under C04",
                     "Word::reverse itself (Vec<Syllable>::clone exhausts memory under CBMC): the harness builds the reversed word by hand and checks SegPos::reversed against it",
-                    "sets, optionals, ellipses, syllables, structures and variables inside environments"],
+                    "optionals, ellipses, syllables, structures and variables inside environments; sets are decided at the kernel (context_match_set on a two-alternative set), not inside a longer environment"],
         "assumptions": ["neighbouring word segments inside a syllable are pairwise distinct (the property's own side condition)", "`$` holds at every syllable edge including the two word edges, `#` only past the word edge (anchor: subrule.rs:229-234)",
                         "reference walk emitted per shape by gen/props_c03.py:oracle()", "std::hash::RandomState::new stubbed with fixed keys"],
     }
